@@ -237,3 +237,40 @@ Theorem C02_shift_rotate_word_final_state :
       /\ word_outcome m m' r res (Z.testbit res 31) (res =? 0) false false.
 Proof. exact shift_word_final. Qed.
 Print Assumptions C02_shift_rotate_word_final_state.
+
+(* moves and unary operations (MOV, MCOM, MNEG at every size), CLR, and the word compare / test *)
+Theorem C02_move_unary_final_state :
+  forall ir m a r res,
+    unary_result (iopcode ir) a = Some res -> read_op ir 0 m = Ok a m ->
+    omode (get_op ir 1) = MRegister -> oreg (get_op ir 1) = Some r -> 0 <= r <= 10 -> otype (get_op ir 1) <> DNone ->
+    let t := otype (get_op ir 1) in
+    exists m', exec ir m = Ok (ilen ir) m'
+      /\ word_outcome m m' r res (Z.testbit res (sign_bit t)) (trunc_to t res =? 0) (too_big t res) false.
+Proof. exact unary_sized_final. Qed.
+Print Assumptions C02_move_unary_final_state.
+
+Theorem C02_clr_final_state :
+  forall ir m r,
+    iopcode ir = 128 \/ iopcode ir = 130 \/ iopcode ir = 131 ->
+    omode (get_op ir 0) = MRegister -> oreg (get_op ir 0) = Some r -> 0 <= r <= 10 ->
+    exists m', exec ir m = Ok (ilen ir) m' /\ word_outcome m m' r 0 false true false false.
+Proof. exact clr_final. Qed.
+Print Assumptions C02_clr_final_state.
+
+Theorem C02_compare_test_word_final_state :
+  forall ir m a b,
+    read_op ir 0 m = Ok a m ->
+    (iopcode ir = 60 -> read_op ir 1 m = Ok b m ->
+       exists m', exec ir m = Ok (ilen ir) m'
+         /\ flag F_Z m' = (b =? a) /\ flag F_N m' = (s32 b <? s32 a) /\ flag F_C m' = (b <? a) /\ flag F_V m' = false
+         /\ (forall i, 0 <= i <= 15 -> i <> 11 -> R m' i = R m i) /\ mbus m' = mbus m)
+    /\ (iopcode ir = 40 ->
+       exists m', exec ir m = Ok (ilen ir) m'
+         /\ flag F_Z m' = (a =? 0) /\ flag F_N m' = (s32 a <? 0) /\ flag F_C m' = false /\ flag F_V m' = false
+         /\ (forall i, 0 <= i <= 15 -> i <> 11 -> R m' i = R m i) /\ mbus m' = mbus m).
+Proof.
+  intros ir m a b R0. split.
+  - intros Ho R1. exact (cmpw_final ir m a b Ho R0 R1).
+  - intros Ho. exact (tstw_final ir m a Ho R0).
+Qed.
+Print Assumptions C02_compare_test_word_final_state.
